@@ -144,6 +144,11 @@ func dirname(path string) string {
 }
 
 func realPath(p string) string {
+	if p == "" {
+		// EvalSymlinks("") yields ".", which the set lookup would treat as a
+		// child of the root; the empty (unresolvable) name has no real path
+		return ""
+	}
 	f, err := filepath.EvalSymlinks(p)
 	if err != nil {
 		return ""
